@@ -165,7 +165,27 @@ fn geti(v: &Value, k: usize) -> i64 {
     v[k].as_i64().unwrap_or_else(|| panic!("report lacks integer field {k}: {v}"))
 }
 
-fn run_scenario(sc: &Value, tr: &mut Trace) {
+/// coverage counters printed on stdout at the end (no verdict is derived from them)
+#[derive(Default)]
+struct Stats {
+    scenarios: u64,
+    reports: u64,
+    some_air: u64,
+    none_air: u64,
+    some_surf: u64,
+    none_surf: u64,
+    multi_aircraft: u64,
+    nontrivial: Vec<String>, // content hashes of scenarios in which at least one report got a position
+}
+
+fn fnv(h: &mut u64, x: i64) {
+    for b in x.to_le_bytes() {
+        *h ^= b as u64;
+        *h = h.wrapping_mul(0x100000001b3);
+    }
+}
+
+fn run_scenario(sc: &Value, tr: &mut Trace, stats: &mut Stats) {
     let id = sc["id"].as_i64().expect("id");
     let fam = sc["fam"].clone();
     let has_ref = sc["ref"].is_array();
@@ -239,6 +259,33 @@ fn run_scenario(sc: &Value, tr: &mut Trace) {
         "ref": if has_ref { json!([rl, rm]) } else { json!("none") },
         "refu": sc["refu"].as_i64().unwrap_or(-999999), "vmax": vmax, "sdref": sdref, "refkept": ref_kept, "batch_ok": batch_ok,
     }));
+    stats.scenarios += 1;
+    stats.reports += reports.len() as u64;
+    if acs.len() > 1 {
+        stats.multi_aircraft += 1;
+    }
+    let mut h: u64 = 0xcbf29ce484222325;
+    fnv(&mut h, rl);
+    fnv(&mut h, rm);
+    let mut any = false;
+    for (k, r) in reports.iter().enumerate() {
+        for x in [r.ac, r.ts_ms, r.kind, r.par, r.l, r.m] {
+            fnv(&mut h, x);
+        }
+        let got = matches!(inter[k].as_ref().and_then(me_of),
+            Some((ME::BDS05(AirbornePosition { latitude: Some(_), .. }), _))
+            | Some((ME::BDS06(SurfacePosition { latitude: Some(_), .. }), _)));
+        any |= got;
+        match (r.kind, got) {
+            (0, true) => stats.some_air += 1,
+            (0, false) => stats.none_air += 1,
+            (_, true) => stats.some_surf += 1,
+            (_, false) => stats.none_surf += 1,
+        }
+    }
+    if any {
+        stats.nontrivial.push(format!("{:016x}", h));
+    }
     for (k, r) in reports.iter().enumerate() {
         let (tlat, tlon) = (deg(r.l), deg(r.m));
         let out = |ok: bool, m: &Option<Message>| if ok { attached(m, tlat, tlon) } else { json!({"o": "panic"}) };
@@ -263,9 +310,15 @@ fn main() {
     }
     let scenarios = read_lines(&args[0]);
     let mut tr = Trace::create(&args[1]);
+    let mut stats = Stats::default();
     for sc in &scenarios {
-        run_scenario(sc, &mut tr);
+        run_scenario(sc, &mut tr, &mut stats);
     }
     tr.flush();
-    println!("{}", tr.n);
+    println!("{}", json!({
+        "events": tr.n, "scenarios": stats.scenarios, "reports": stats.reports,
+        "some_air": stats.some_air, "none_air": stats.none_air,
+        "some_surf": stats.some_surf, "none_surf": stats.none_surf,
+        "multi_aircraft": stats.multi_aircraft, "nontrivial": stats.nontrivial,
+    }));
 }
